@@ -24,6 +24,7 @@ CONSTANTS
   ResetSeparate = TRUE
   JumpToFirstAvailable = FALSE
   ReportOnlyIfBitSet = FALSE
+  ResendWithoutCheck = FALSE
 SPECIFICATION Spec
 VIEW View
 INVARIANTS C03_NoLostWake C04_BitsTrueWhenCalm
